@@ -304,6 +304,9 @@ theorem applicable_fixOk (m : Nat) (kids : List (BNode K V)) (slot : Nat) (nlen 
       simp only [Option.map_some, Option.some.injEq] at h2
       exact ⟨h0, L, by rw [List.getElem?_set_ne (by omega)]; exact hL, by omega⟩
 
+theorem length_setSepKey (keys : List K) (slot : Nat) (o : Option K) : (setSepKey keys slot o).length = keys.length := by
+  cases o <;> simp [setSepKey]
+
 /-- the part of `afterChild` before this node's own underflow decision -/
 theorem afterChild_pre (p : Params K) (pv : p.Valid) (tg : Target K) (h l : Nat) (keys : List K)
     (kids : List (BNode K V)) (ctx cctx : Ctx K V) (slot : Nat) (r : EraseOut K V)
@@ -312,17 +315,18 @@ theorem afterChild_pre (p : Params K) (pv : p.Valid) (tg : Target K) (h l : Nat)
     (hc1 : cctx.lp = cctx.par ↔ 0 < slot) (hc2 : cctx.rp = cctx.par ↔ slot < keys.length)
     (hc3 : 0 < slot → cctx.left = kids[slot - 1]?) (hc4 : slot < keys.length → cctx.right = kids[slot + 1]?)
     (hr : EraseOK p tg h child cctx r) :
-    ∃ keys3 kids3 lf inf setSep lastUp,
+    ∃ keys3 kids3 lf inf,
       afterChild p l keys kids ctx slot r =
-        finishInner p l keys3 kids3 ctx setSep lastUp (r.leafFree + lf) (r.innerFree + inf) ∧
-      RebalanceOut p h keys (kids.set slot r.node) keys3 kids3 lf inf := by
+        finishInner p l keys3 kids3 ctx (reportSep ctx.sepAbove r.lastUp) (reportUp ctx.sepAbove r.lastUp)
+          (r.leafFree + lf) (r.innerFree + inf) ∧
+      RebalanceOut p h keys (kids.set slot r.node) keys3 kids3 lf inf ∧
+      SepPart p h (setSepKey keys slot r.setSep) (kids.set slot r.node) keys3 kids3 := by
   have hlt : slot < kids.length := by omega
   unfold afterChild
   rw [hr.noDrop]
   simp only [Bool.false_eq_true, if_false]
   generalize hk1 : setSepKey keys slot r.setSep = keys1
-  have hlen1 : keys1.length = keys.length := by
-    rw [← hk1]; cases r.setSep <;> simp [setSepKey]
+  have hlen1 : keys1.length = keys.length := by rw [← hk1]; exact length_setSepKey keys slot r.setSep
   have hka : (kids.set slot r.node).length = keys1.length + 1 := by rw [List.length_set, hlen1]; exact hk
   have hsh : ∀ i c, (kids.set slot r.node)[i]? = some c → i ≠ slot → Shape p h c := by
     intro i c hc hne
@@ -339,12 +343,12 @@ theorem afterChild_pre (p : Params K) (pv : p.Valid) (tg : Target K) (h l : Nat)
       have := hr.under (by simpa [minOf] using h')
       simp only [minOf, if_true] at this
       exact applicable_fixOk p.leafMin kids slot keys.length r.node cctx r.fix hc1 hc2 hc3 hc4 this
-    obtain ⟨fx, keys3, kids3, lf, inf, h1, h2, h3, h4⟩ := rebalance_leaf p pv keys1 (kids.set slot r.node) slot r.fix
+    obtain ⟨fx, keys3, kids3, lf, inf, h1, h2, h3, h4, h5⟩ := rebalance_leaf p pv keys1 (kids.set slot r.node) slot r.fix
       hka (by omega) hsh r.node hC hr.shape.mi_irrel0 hfull hunder
     subst hl
     rw [h1]
-    simp only [h2, h3]
-    exact ⟨keys3, kids3, lf, inf, _, _, rfl, ⟨h4.arity, h4.shape, h4.flat, by rw [← hlen1]; exact h4.klen, h4.free_le, h4.lcnt, h4.icnt⟩⟩
+    simp only [h2, h3, Option.none_or]
+    exact ⟨keys3, kids3, lf, inf, rfl, ⟨h4.arity, h4.shape, h4.flat, by rw [← hlen1]; exact h4.klen, h4.free_le, h4.lcnt, h4.icnt⟩, h5⟩
   | succ h =>
     have hfull : p.innerMin ≤ r.node.slotuse → r.fix = .none := by
       intro h'; exact hr.full (by simpa [minOf] using h')
@@ -353,10 +357,10 @@ theorem afterChild_pre (p : Params K) (pv : p.Valid) (tg : Target K) (h l : Nat)
       have := hr.under (by simpa [minOf] using h')
       simp only [minOf, Nat.add_one_ne_zero, if_false] at this
       exact applicable_fixOk p.innerMin kids slot keys.length r.node cctx r.fix hc1 hc2 hc3 hc4 this
-    obtain ⟨fx, keys3, kids3, lf, inf, h1, h2, h3, h4⟩ := rebalance_inner p pv h l (by omega) keys1
+    obtain ⟨fx, keys3, kids3, lf, inf, h1, h2, h3, h4, h5⟩ := rebalance_inner p pv h l (by omega) keys1
       (kids.set slot r.node) slot r.fix hka (by omega) hsh r.node hC hr.shape.ml_irrel hfull hunder
     rw [h1]
-    simp only [h2, h3]
-    exact ⟨keys3, kids3, lf, inf, _, _, rfl, ⟨h4.arity, h4.shape, h4.flat, by rw [← hlen1]; exact h4.klen, h4.free_le, h4.lcnt, h4.icnt⟩⟩
+    simp only [h2, h3, Option.none_or]
+    exact ⟨keys3, kids3, lf, inf, rfl, ⟨h4.arity, h4.shape, h4.flat, by rw [← hlen1]; exact h4.klen, h4.free_le, h4.lcnt, h4.icnt⟩, h5⟩
 
 end TlxVerif.C01
